@@ -393,6 +393,13 @@ def multiband_world_strategy(draw):
         eq['Edfa'].append(dup)
     eq['Span'][0]['power_mode'] = draw(st.sampled_from([True, True, False]))
     eq['Span'][0]['EOL'] = draw(st.sampled_from([0, 0.5]))
+    if draw(st.booleans()):
+        # amplifier models whose band edges are staggered against each other (as in the shipped example library)
+        for amp in eq['Edfa']:
+            if amp['type_variety'] == 'std_medium_gain':
+                amp['f_min'], amp['f_max'] = 191.225e12, 196.125e12
+            if amp['type_variety'] == 'std_medium_gain_L':
+                amp['f_min'], amp['f_max'] = 186.5e12, 190.1e12
     eq['Transceiver'].append(draw(transceiver_strategy('trx1')))
     nsites = draw(st.integers(2, 3))
     sites = SITES[:nsites]
@@ -409,6 +416,19 @@ def multiband_world_strategy(draw):
         connections.append({'from_node': f'roadm {s}', 'to_node': f'trx {s}'})
     bands = [{'f_min': 191.3e12, 'f_max': 196.0e12}, {'f_min': 187.0e12, 'f_max': 190.0e12}]
     kinds = ['mb_no_design', 'mb_type_variety', 'mb_no_design', 'single', 'single_reduced', 'mb_mixed', 'mb_explicit']
+    auto_mb = draw(st.integers(0, 5)) == 0
+    if auto_mb:
+        # boosters and pre-amplifiers are left to auto-design: gnpy inserts Multiband_amplifier elements itself (their
+        # params start from the class-level defaults) because every OMS holds one in-line multiband amplifier and the
+        # ROADMs carry two design bands
+        kinds = ['mb_auto']
+        for r in roadms.values():
+            r['params'] = {'design_bands': [{'f_min': 186.6e12, 'f_max': 190.0e12, 'spacing': 50e9},
+                                            {'f_min': 191.3e12, 'f_max': 196.1e12, 'spacing': 50e9}]}
+            if draw(st.booleans()):
+                r['params']['restrictions'] = {'preamp_variety_list': [],
+                                               'booster_variety_list': [draw(st.sampled_from(
+                                                   ['std_medium_gain_multiband', 'std_low_gain_multiband_bis']))]}
     groups = {a['type_variety']: a['amplifiers'] for a in MB_EQPT['Edfa'] if a.get('type_def') == 'multi_band'}
     mb_varieties = ['std_medium_gain_multiband', 'std_low_gain_multiband', 'std_low_gain_multiband_bis',
                     'std_low_gain_multiband_reduced', 'std_low_gain_multiband_reduced_bis', 'std_low_gain_multiband_ter']
@@ -438,6 +458,20 @@ def multiband_world_strategy(draw):
                 if kind == 'single_reduced':
                     el['type_variety'] = 'std_low_gain_reduced_band'
                 return el
+            if kind == 'mb_auto':
+                chain = [{'uid': f'fiber ({a} → {b})-0', 'type': 'Fiber', 'type_variety': 'SSMF',
+                          'params': {'length': draw(st.sampled_from([60.0, 80.0, 50.0])), 'loss_coef': 0.2,
+                                     'length_units': 'km'}, 'metadata': _loc(x)},
+                         {'uid': f'mid {a}{b}', 'type': 'Multiband_amplifier', 'metadata': _loc(x)},
+                         {'uid': f'fiber ({a} → {b})-1', 'type': 'Fiber', 'type_variety': 'SSMF',
+                          'params': {'length': draw(st.sampled_from([60.0, 40.0, 70.0])), 'loss_coef': 0.2,
+                                     'length_units': 'km'}, 'metadata': _loc(x)}]
+                elements.extend(chain)
+                uids = [f'roadm {a}'] + [c['uid'] for c in chain] + [f'roadm {b}']
+                for u, v in zip(uids, uids[1:]):
+                    connections.append({'from_node': u, 'to_node': v})
+                meta_links.append({'from': a, 'to': b, 'first': uids[1], 'last': uids[-2], 'km': None, 'kind': kind})
+                continue
             chain = [amp(f'booster {a}{b}'),
                      {'uid': f'fiber ({a} → {b})-0', 'type': 'Fiber', 'type_variety': 'SSMF',
                       'params': {'length': draw(st.sampled_from([50.0, 80.0, 60.0])), 'loss_coef': 0.2,
